@@ -917,14 +917,13 @@ fn build(v: &Value, idx: u64) -> Vec<u8> {
                 put(a + 2, (segs >> 8) as u8);
                 put(a + 3, segs as u8);
             }
-            let l4 = hl * 4; // where an accepting decoder looks for the upper layer
-            match g(v, "nh") {
-                17 => {
-                    put(l4 + 4, (g(v, "ul") >> 8) as u8);
-                    put(l4 + 5, g(v, "ul") as u8);
-                }
-                202 => put(l4, g(v, "st") as u8),
-                _ => {}
+            // where an accepting decoder looks for the upper layer; the UDP Length field and the SCMP
+            // type byte do not overlap, so both descriptor fields are realised whatever nh says
+            let l4 = hl * 4;
+            if l4 >= a {
+                put(l4, g(v, "st") as u8);
+                put(l4 + 4, (g(v, "ul") >> 8) as u8);
+                put(l4 + 5, g(v, "ul") as u8);
             }
         }
         "stdpath" => {
